@@ -50,9 +50,9 @@ def family(tag):
 
 def crash_key(e):
     s = e.get("stderr", "") or e.get("what", "")
-    m = re.search(r"([\w.-]+\.(?:cc|h|hpp)):(\d+):\d+: runtime error: ([^\n]{0,60})", s)
+    m = re.search(r"([\w.-]+\.(?:cc|h|hpp)):(\d+):\d+: runtime error: ([^\n]*)", s)
     if m:
-        what = re.sub(r"[^A-Za-z]+", "_", re.sub(r"-?\d+", "", m.group(3))).strip("_")[:40]
+        what = re.sub(r"[^A-Za-z]+", "_", re.sub(r"-?\d+", "", m.group(3))).strip("_")[:32]
         return "ubsan:%s:%s:%s" % (m.group(1), m.group(2), what)
     m = re.search(r"ERROR: AddressSanitizer: ([\w-]+)", s)
     if m:
@@ -65,7 +65,7 @@ def run(tier):
     t0 = time.time()
     exe = targets.get("h_nlrt")
     info = atoms_info(exe)
-    nsim = 150 if tier != "thorough" else 1500
+    nsim = 150 if tier != "thorough" else 3000
     cases, exh, sim = generate(tier, info["nfixed"], nsim)
     rnd = random.Random(seed())
     for c in cases:
@@ -130,6 +130,7 @@ def run(tier):
             found[key] = [desc, payload, 1]
     nexec = states = trans = nbad = 0
     seen_exec = set()
+    callbacks = {}
     for trace, lines, ne, res in results:
         nexec += ne
         states += res.distinct
@@ -138,6 +139,8 @@ def run(tier):
         for e in tl:
             if e["e"] == "Exec":
                 seen_exec.add((e["case"], e["q"], e["fmt"]))
+                for ev in e["evs"]:
+                    callbacks[ev["e"]] = callbacks.get(ev["e"], 0) + 1
         for b in printed_json(res, "BAD"):
             nbad += 1
             w = b["what"]
@@ -179,6 +182,11 @@ def run(tier):
                if (c["id"], q, f) not in seen_exec]
     if missing:
         raise Broken("%d planned executions missing from the trace, e.g. %s" % (len(missing), missing[:3]))
+    # vacuity: the run must have exercised every callback of the protocol (all but Throw)
+    spec_events = set(re.findall(r'e\.e = "(\w+)" ->', open(os.path.join(NL, "NLProtocol.tla")).read())) - {"Throw"}
+    unseen = sorted(spec_events - set(callbacks))
+    if unseen:
+        raise Broken("callbacks never observed in this run: %s" % unseen)
     for key in sorted(found):
         desc, payload, cnt = found[key]
         v.violation(key, "[%s] %s (%d execution(s))" % (key, desc, cnt), payload)
@@ -195,7 +203,7 @@ def run(tier):
                     {k: sample_exec[k] for k in ("case", "fmt", "comments", "bf", "cs")},
                     sample_exec["evs"][:12]],
         "models": len(cases), "models_by_family": fams, "atoms": NATOMS, "atoms_fixed": info["nfixed"],
-        "writer_configurations": len(ALL_CFGS) * 2,
+        "writer_configurations": len(ALL_CFGS) * 2, "callbacks_observed": callbacks,
         "explanation": "TLC-generated abstract NL models (exhaustive small layer: every operator at every arity class with plain "
                        "and nested arguments, bound kinds, variable classes, section sizes 0..3, suffix kinds, names, options, "
                        "defined-variable groups, every atom of the number table in every numeric position; plus %d simulated "
